@@ -75,6 +75,11 @@ def run(replay=None):
     ck.coverage["samples"] = [{"targets": r["targets"], "during": r.get("during", [])[:6]} for r in scs[:2]]
     for r in scs:
         case = {"targets": r["targets"], "methods": r["methods"]}
+        if r["apply_panic"] and any(t == -1 for t in (r.get("want_tags") or [])) and "[may be refused]" in r["apply_panic"].split(":")[0]:
+            refused_ok = ck.notes.setdefault("refused_as_allowed", [])
+            if r["apply_panic"].split(":")[0] not in refused_ok:
+                refused_ok.append(r["apply_panic"].split(":")[0])
+            continue
         if r["apply_panic"]:
             ck.impl_violation("apply-panics:" + r["apply_panic"].split(":")[0], "mocking panics: %s" % r["apply_panic"], case)
             continue
@@ -82,7 +87,7 @@ def run(replay=None):
         for a in r["also"]:
             hit |= set(a or [])
         generic_apply = [m for m, t in zip(r["methods"], r["targets"]) if "G[" in t and t.endswith(".Apply")]
-        want_tag = {m: t for m, t in zip(r["methods"], r.get("want_tags") or []) if t}
+        want_tag = {m: t for m, t in zip(r["methods"], r.get("want_tags") or []) if t and t > 0}
         for m, kx, res in r["during"]:
             k, x = kx // 1000, kx % 1000
             orig = k * 100 + x + consts[m]
@@ -105,6 +110,20 @@ def run(replay=None):
             k, x = kx // 1000, kx % 1000
             if res != k * 100 + x + consts[m]:
                 ck.impl_violation("not-restored:" + names[m], "after Reset %s still does not run the original (%s)" % (names[m], r["targets"]), dict(case, method=names[m], got=res))
+    # bytecode.GetInnerFunc on synthetic generic-instantiation wrappers (CALL to the shape body, NOPs the assembler may put
+    # in front of it): the redirection of a generic mock must land on the first CALL's destination
+    iobs = os.path.join(ck.wd, "obs_inner.jsonl")
+    irc, iout = vlib.run_hx(hx, ["c06", "-extra", "inner", "-seed", str(ck.seed), "-tier", ck.tier, "-out", iobs], timeout=600)
+    irows = [r for r in (vlib.read_jsonl(iobs) if os.path.exists(iobs) else []) if r.get("kind") == "inner"]
+    if irc != 0 or not irows:
+        ck.obligation_broken("harness run c06 inner (exit %d)" % irc, iout[-1200:])
+    else:
+        ir = irows[0]
+        ck.coverage["evaluations"] += ir["cases"]
+        ck.notes["inner_func_wrappers"] = {"cases": ir["cases"], "bad": ir["bad"], "mix": ir["mix"]}
+        if ir["bad"]:
+            ck.impl_violation("generic-wrapper-body-not-found", "GetInnerFunc does not return the destination of the wrapper's first CALL on %d of %d synthetic wrappers; first: %s" % (
+                ir["bad"], ir["cases"], json.dumps(ir["first"][:1])), ir)
     good = [r for r in scs if not r["apply_panic"]]
     rc2, out2 = vlib.coq_eval("c06_cases", coq_cases(good, zoo), ck.wd, timeout=600)
     flat = out2.replace("\n", " ")
